@@ -250,7 +250,7 @@ class _Continue(Exception):
 BUILTIN_TYPES = ('int', 'bool', 'bytes', 'bytearray', 'str', 'tuple', 'list', 'dict', 'set', 'frozenset', 'object', 'float', 'type')
 BUILTIN_FUNCS = ('len', 'max', 'min', 'range', 'abs', 'divmod', 'isinstance', 'sum', 'ord', 'chr', 'reversed', 'enumerate', 'zip',
                  'any', 'all', 'hex', 'pow', 'sorted', 'super', 'iter', 'next', 'callable', 'repr', 'issubclass', 'hasattr', 'getattr',
-                 'setattr', 'vars', 'format', 'bin', 'oct', 'round')
+                 'setattr', 'vars', 'format', 'bin', 'oct', 'round', 'map', 'staticmethod', 'classmethod')
 BUILTIN_EXCS = tuple(EXC_PARENTS) + ('BaseException',)
 
 EXT_PURE = {
@@ -506,8 +506,18 @@ class Evaluator(object):
                 if not isinstance(v, VBuf) else NoEval('bytearray.%s is not modelled' % name)
         raise NoEval('attribute %s of %r' % (name, v))
 
-    def _class_attr(self, ci, name, expr):
+    def _class_attr(self, ci, name, expr, busy=()):
         fr = _Frame(self, FunctionInfo(ast.parse('def __classbody__(): pass').body[0], ci.module, ci), {}, None)
+        fr.class_scope = ci
+        fr.class_scope_busy = tuple(busy) + (name,)
+        memo = self.__dict__.setdefault('_class_attr_memo', {})
+        if (id(ci), name) in memo:
+            return memo[(id(ci), name)]
+        if not is_int_enum(ci):
+            v = fr.ev(expr)
+            if isinstance(v, (int, str, bytes, type(None))) or (isinstance(v, tuple) and all(isinstance(x, (int, str, bytes)) for x in v)):
+                memo[(id(ci), name)] = v          # an immutable class-level value is the same at every read
+            return v
         if is_int_enum(ci):
             members = ci.enum_members()
             if name in members and isinstance(members[name], int):
@@ -600,7 +610,9 @@ class Evaluator(object):
         dparams = params[len(params) - len(defaults):] if defaults else []
         for name, d in zip(dparams, defaults):
             if name not in env:
-                env[name] = _Frame(self, fi, {}, None).ev(d)
+                dfr = _Frame(self, fi, {}, None)
+                dfr.class_scope = fi.cls             # a default is evaluated where the def stands: in the class body for a method
+                env[name] = dfr.ev(d)
         for ka, kd in zip(a.kwonlyargs, a.kw_defaults):
             if ka.arg in kw:
                 env[ka.arg] = kw.pop(ka.arg)
@@ -781,6 +793,12 @@ class Evaluator(object):
             return list(enumerate(self._iter(args[0]), *[_num(a) for a in args[1:]]))
         if n == 'zip':
             return list(zip(*[list(self._iter(a)) for a in args]))
+        if n in ('staticmethod', 'classmethod') and len(args) == 1 and not kwargs and isinstance(args[0], Func):
+            return args[0]
+        if n == 'iter' and len(args) == 1 and not kwargs:
+            return list(self._iter(args[0]))        # one pass over a finite sequence: a list iterates the same
+        if n == 'map' and len(args) >= 2 and not kwargs:
+            return [self._call(args[0], list(xs), {}) for xs in zip(*[list(self._iter(a)) for a in args[1:]])]
         if n == 'any':
             return any(self.truth(x) for x in self._iter(args[0]))
         if n == 'all':
@@ -1353,6 +1371,13 @@ class _Frame(object):
             return Builtin('exc:' + n)
         if n == 'NotImplemented':
             raise NoEval('NotImplemented')
+        ci = getattr(self, 'class_scope', None)
+        if ci is not None:
+            # an expression of the class body (class-level assignment, parameter default): names of the class body are in scope
+            if n in ci.methods:
+                return Func(ci.methods[n], None)
+            if n in ci.attrs and n not in getattr(self, 'class_scope_busy', ()):
+                return self.E._class_attr(ci, n, ci.attrs[n], busy=tuple(getattr(self, 'class_scope_busy', ())) + (n,))
         raise Raised('NameError', n)
 
     def ev_Attribute(self, node):
